@@ -4,6 +4,7 @@ CONSTANTS
   PerProg = 27
   SmallNames <- SmallNamesThorough
   Ifaces = 2
+  BuilderSets = 3
   Variant <- VariantFast
   Wire <- WireFast
   Near <- NearFast
